@@ -62,7 +62,7 @@ m("c06-gate-halved", "C06", VM, "            if align < min_align {\n           
 m("c06-order-relaxed", "C06", "src/atomic_integer.rs", "                self.store(val, order)", "                self.store(val, Ordering::Relaxed)", "R6.8.atomic_forward")
 # ---------------------------------------------------------------- C07
 m("c07-bitmap-len0", "C07,C09,C16", AB, "if len == 0 {\n            return;\n        }", "", "A4.unreviewed")
-m("c07-compute-offset-wraps", "C07,C01", VM, "match base.checked_add(offset) {", "match Some(base.wrapping_add(offset)) {", "A4.unreviewed")
+m("c07-compute-offset-wraps", "C01", VM, "match base.checked_add(offset) {", "match Some(base.wrapping_add(offset)) {", "?")   # a silent wrap never crashes (not C07); the overflowing request is then answered with an accessor: C01
 m("c07-checked-offset-unchecked", "C07", GM, "base.checked_add(offset as u64)\n            .and_then(|addr| self.check_address(addr))", "self.check_address(base.unchecked_add(offset as u64))", "A4.unreviewed", occ=1)
 # ---------------------------------------------------------------- C08
 m("c08-harvest-load-store", "C08", AB, ".map(|u| u.fetch_and(0, Ordering::SeqCst))", ".map(|u| { let v = u.load(Ordering::SeqCst); u.store(0, Ordering::SeqCst); v })", "R8.1.store")
